@@ -152,12 +152,21 @@ def build(variant, harness_srcs, exe_name, extra_cflags="", redirect=True, repo_
                 out = p.communicate(timeout=600)[0].decode("utf-8", "replace")
                 if p.returncode != 0:
                     raise Broken("compile failed: %s\n%s" % (j, out[-4000:]))
-        exe = os.path.join(BUILD, variant, exe_name)
+        # the executable's name carries the hash of what it was linked from: a check that runs concurrently against
+        # another state of the repository (development self-tests) can neither overwrite nor pick up this one
         lkey = sha(*objs, *hobjs, ldflags)
-        stamp = exe + ".key"
-        if not os.path.exists(exe) or not os.path.exists(stamp) or open(stamp).read() != lkey:
-            sh("%s %s -o %s %s %s -lm" % (cc, ldflags, exe, " ".join(hobjs), " ".join(objs)), timeout=300)
-            open(stamp, "w").write(lkey)
+        exe = os.path.join(BUILD, variant, "%s.%s" % (exe_name, lkey[:12]))
+        if not os.path.exists(exe):
+            sh("%s %s -o %s.tmp %s %s -lm" % (cc, ldflags, exe, " ".join(hobjs), " ".join(objs)), timeout=300)
+            os.replace(exe + ".tmp", exe)
+            now = time.time()
+            for old in os.listdir(os.path.join(BUILD, variant)):
+                op = os.path.join(BUILD, variant, old)
+                if old.startswith(exe_name + ".") and op != exe and os.path.isfile(op) and now - os.path.getmtime(op) > 7200:
+                    try:
+                        os.unlink(op)
+                    except OSError:
+                        pass
         return exe
     finally:
         fcntl.flock(lock, fcntl.LOCK_UN)
@@ -608,6 +617,13 @@ def tlc_export_edges(module, cfg, timeout=900, xmx="4g"):
     with open(cpath + ".tmp", "w") as f:
         json.dump({"hists": hists, "tail": tail}, f)
     os.replace(cpath + ".tmp", cpath)
+    # exports of earlier versions of the specification are of no use any more
+    for old in os.listdir(cdir):
+        if old.startswith(os.path.basename(cfg) + "-") and old != os.path.basename(cpath) and not old.endswith(".tmp"):
+            try:
+                os.unlink(os.path.join(cdir, old))
+            except OSError:
+                pass
     return hists, r
 
 
